@@ -43,7 +43,7 @@
                          inside Dequeue (holding a slot) and the connection is not dying. *)
 From Coq Require Import List NArith Bool.
 From GM Require Import Base.Lts Codec.Packet Session.Store Broker.Conn Broker.ConnSpec
-  Broker.ConnProofsCTraces Broker.ConnProofsC4 Broker.ConnProofsC5.
+  Broker.ConnProofsCDefs Broker.ConnProofsCTraces Broker.ConnProofsC4 Broker.ConnProofsC5.
 Import ListNotations.
 Open Scope N_scope.
 
